@@ -214,7 +214,7 @@ impl<'a, T: Flt> Checker for RoundChecker<'a, T> {
             }
         }
         if self.partial_suffixes {
-            for suf in [&b"x"[..], b" 1", b"\xff"] {
+            for suf in [&b"}"[..], b" 1", b"\xff"] {
                 // a byte that cannot extend the number
                 let mut t = s.to_vec();
                 t.extend_from_slice(suf);
@@ -761,3 +761,179 @@ pub fn replay_case(
     }
     println!("replayed input: {}", show_trunc(&input));
 }
+
+// ---------------------------------------------------------------------------------------------
+// radix subjects (const-generic FORMAT per radix) and mixed-base formats
+// ---------------------------------------------------------------------------------------------
+
+#[cfg(feature = "power-of-two")]
+pub mod radixsub {
+    use super::*;
+    use core::num::NonZeroU8;
+    use lexical_core::{NumberFormatBuilder, ParseFloatOptions};
+
+    macro_rules! radix_subject_fn {
+        ($($r:literal)*) => {
+            /// Subject for `from_radix(radix)` with `ParseFloatOptions::from_radix(radix)`.
+            pub fn radix_subject<T: Flt>(radix: u32, lossy: bool) -> Option<(Subject<T>, Spell)> {
+                match radix {
+                    $($r => {
+                        const F: u128 = NumberFormatBuilder::from_radix($r);
+                        const O: ParseFloatOptions = ParseFloatOptions::from_radix($r);
+                        const OL: ParseFloatOptions = ParseFloatOptions::from_radix($r).rebuild().lossy(true).build_unchecked();
+                        #[inline(never)]
+                        fn p<T: Flt>(b: &[u8]) -> PRes<T> { lexical_core::parse_with_options::<T, F>(b, &O) }
+                        #[inline(never)]
+                        fn pp<T: Flt>(b: &[u8]) -> PRes<(T, usize)> { lexical_core::parse_partial_with_options::<T, F>(b, &O) }
+                        #[inline(never)]
+                        fn pl<T: Flt>(b: &[u8]) -> PRes<T> { lexical_core::parse_with_options::<T, F>(b, &OL) }
+                        #[inline(never)]
+                        fn ppl<T: Flt>(b: &[u8]) -> PRes<(T, usize)> { lexical_core::parse_partial_with_options::<T, F>(b, &OL) }
+                        let spell = Spell { radix: $r, base: $r, exp_radix: $r, exp_char: if $r >= 15 { b'^' } else { b'e' } };
+                        let name = concat!("radix", stringify!($r));
+                        Some(if lossy {
+                            (Subject { name, parse: pl::<T>, parse_partial: ppl::<T>, lossy: true }, spell)
+                        } else {
+                            (Subject { name, parse: p::<T>, parse_partial: pp::<T>, lossy: false }, spell)
+                        })
+                    })*
+                    _ => None,
+                }
+            }
+        };
+    }
+
+    #[cfg(feature = "radix")]
+    radix_subject_fn!(2 3 4 5 6 7 8 9 10 11 12 13 14 15 16 17 18 19 20 21 22 23 24 25 26 27 28 29 30 31 32 33 34 35 36);
+    #[cfg(not(feature = "radix"))]
+    radix_subject_fn!(2 4 8 10 16 32);
+
+    macro_rules! mixed_subject_fn {
+        ($(($m:literal, $b:literal, $x:literal, $c:literal))*) => {
+            /// Mixed-base formats: (mantissa radix, exponent base, exponent-digit radix).
+            pub fn mixed_subjects<T: Flt>(lossy: bool) -> Vec<(Subject<T>, Spell)> {
+                let mut v = Vec::new();
+                $({
+                    const F: u128 = NumberFormatBuilder::new()
+                        .mantissa_radix($m)
+                        .exponent_base(NonZeroU8::new($b))
+                        .exponent_radix(NonZeroU8::new($x))
+                        .build_strict();
+                    const O: ParseFloatOptions = ParseFloatOptions::builder().exponent($c).build_unchecked();
+                    const OL: ParseFloatOptions = ParseFloatOptions::builder().exponent($c).lossy(true).build_unchecked();
+                    #[inline(never)]
+                    fn p<T: Flt>(b: &[u8]) -> PRes<T> { lexical_core::parse_with_options::<T, F>(b, &O) }
+                    #[inline(never)]
+                    fn pp<T: Flt>(b: &[u8]) -> PRes<(T, usize)> { lexical_core::parse_partial_with_options::<T, F>(b, &O) }
+                    #[inline(never)]
+                    fn pl<T: Flt>(b: &[u8]) -> PRes<T> { lexical_core::parse_with_options::<T, F>(b, &OL) }
+                    #[inline(never)]
+                    fn ppl<T: Flt>(b: &[u8]) -> PRes<(T, usize)> { lexical_core::parse_partial_with_options::<T, F>(b, &OL) }
+                    let spell = Spell { radix: $m, base: $b, exp_radix: $x, exp_char: $c };
+                    let name = concat!("mixed", stringify!($m), "_", stringify!($b), "_", stringify!($x));
+                    v.push(if lossy {
+                        (Subject { name, parse: pl::<T>, parse_partial: ppl::<T>, lossy: true }, spell)
+                    } else {
+                        (Subject { name, parse: p::<T>, parse_partial: pp::<T>, lossy: false }, spell)
+                    });
+                })*
+                v
+            }
+        };
+    }
+
+    mixed_subject_fn!(
+        (4, 2, 10, b'p') (4, 2, 4, b'p') (4, 2, 2, b'p')
+        (8, 2, 10, b'p') (8, 2, 8, b'p') (8, 2, 2, b'p')
+        (16, 2, 10, b'p') (16, 2, 16, b'p') (16, 2, 2, b'p')
+        (32, 2, 10, b'^') (32, 2, 32, b'^') (32, 2, 2, b'^')
+        (16, 4, 10, b'p') (16, 4, 16, b'p') (16, 4, 4, b'p')
+    );
+}
+
+/// MIXED family: mantissa radix 2^k, exponent base 2 (or 4): short significands with the point
+/// at 0..=2 fractional positions x every exponent, and exact halfway numerals per binade.
+pub fn fam_mixed<C: Checker>(
+    spell: &Spell,
+    f: Fmt,
+    d: u32,
+    hw_level: u32,
+    threads: usize,
+    make: &(dyn Fn() -> C + Sync),
+) {
+    let (qlo, qhi) = spell.exp_range(f, 12);
+    let qs: Vec<i64> = (qlo..=qhi).collect();
+    let wmax = (spell.radix as u64).pow(d);
+    par_items(&qs, threads, |_, &q| {
+        let mut c = make();
+        let es = spell.exp_str(q);
+        for w in 1..wmax {
+            let ds = to_numeral(w, spell.radix);
+            for frac in 0..=2usize.min(ds.len()) {
+                let mut v = ds[..ds.len() - frac].to_vec();
+                if frac > 0 {
+                    v.push(b'.');
+                    v.extend_from_slice(&ds[ds.len() - frac..]);
+                }
+                v.push(spell.exp_char);
+                v.extend_from_slice(&es);
+                c.check(&v);
+            }
+        }
+        c.done();
+    });
+    // halfway numerals
+    let pats: Vec<u64> = match hw_level {
+        0 => vec![0, 1, (1u64 << f.mant_bits) - 1],
+        _ => gen::mant_patterns(f.mant_bits, 0),
+    };
+    let bits_per_base = spell.base.trailing_zeros() as i64;
+    let efs: Vec<u64> = (0..f.exp_max_field()).collect();
+    let maxd = digit_char(spell.radix - 1);
+    par_items(&efs, threads, |_, &ef| {
+        let mut c = make();
+        for &p in &pats {
+            let bits = (ef << f.mant_bits) | p;
+            let (m, e) = match f.classify(bits) {
+                vkit::float::Class::Zero => (0, f.emin()),
+                vkit::float::Class::Finite(m, e) => (m, e),
+                _ => continue,
+            };
+            // halfway = (2m+1) * 2^(e-1) = K * base^x with K = (2m+1) << j, (e-1-j) divisible by bits_per_base
+            let s = e - 1;
+            let j = s.rem_euclid(bits_per_base);
+            let x = (s - j) / bits_per_base;
+            let k = Big::from_u64(2 * m + 1).shl(j as u64);
+            let ds = k.to_digits(spell.radix);
+            c.check(&spell.plain(&ds, x));
+            // above: K.000...1
+            let mut v = ds.clone();
+            v.push(b'.');
+            v.extend(std::iter::repeat(b'0').take(300));
+            v.push(b'1');
+            v.push(spell.exp_char);
+            v.extend(spell.exp_str(x));
+            c.check(&v);
+            // below: (K-1).fff...f
+            let km = k.sub(&Big::from_u64(1));
+            let mut v = km.to_digits(spell.radix);
+            v.push(b'.');
+            v.extend(std::iter::repeat(maxd).take(300));
+            v.push(spell.exp_char);
+            v.extend(spell.exp_str(x));
+            c.check(&v);
+            // the float itself and its successor, written with extra zero digits
+            let kf = Big::from_u64(m).shl((e.rem_euclid(bits_per_base)) as u64);
+            if !kf.is_zero() {
+                let xf = (e - e.rem_euclid(bits_per_base)) / bits_per_base;
+                let mut v = kf.to_digits(spell.radix);
+                v.extend_from_slice(b".000");
+                v.push(spell.exp_char);
+                v.extend(spell.exp_str(xf));
+                c.check(&v);
+            }
+        }
+        c.done();
+    });
+}
+
